@@ -289,6 +289,18 @@ def region(t):
     return _region(n)
 
 
+def iter_source(nextcall, through=()):
+    """the iterator expression a `next` call advances, looking through into_iter (and the given adaptors)"""
+    it = nextcall[2][0]
+    src = it[2] if it[0] == "var" else it
+    for _ in range(6):
+        if src[0] == "call" and (src[1] in ("std::iter::IntoIterator::into_iter", "<I as std::iter::IntoIterator>::into_iter") or src[1] in through):
+            src = src[2][0]
+        else:
+            break
+    return src
+
+
 def _split_call(n):
     """n = call rsplit_once/split_once(R, c) -> (kind, c, R) else None"""
     if n[0] == "call" and n[1] in (STR + "rsplit_once", STR + "split_once") and len(n[2]) == 2:
@@ -324,15 +336,17 @@ def _region(n):
             if ks is not None:
                 return ("StripPrefix", ks, _region(x[2][0]))
         if x[0] == "call" and "Iterator" in x[1] and x[1].endswith("::next"):
-            it = x[2][0]
-            src = it[2] if it[0] == "var" else it
-            while src[0] == "call" and src[1] in ("std::iter::IntoIterator::into_iter", "<I as std::iter::IntoIterator>::into_iter"):
-                src = src[2][0]
-            if src[0] == "call" and src[1] == STR + "split" and cchar(src[2][1]) is not None:
+            src = iter_source(x)
+            if src is not None and src[0] == "call" and src[1] == STR + "split" and cchar(src[2][1]) is not None:
                 return ("Item", cchar(src[2][1]), _region(src[2][0]))
         return ("?", nshow(n))
     if k == "field":
         base = n[1]
+        # element of an enumerate()d split: (index, item)
+        if base[0] == "some" and n[2] == "1" and base[1][0] == "call" and base[1][1].startswith("<std::iter::Enumerate<") and base[1][1].endswith("::next"):
+            src = iter_source(base[1], through=("std::iter::Iterator::enumerate",))
+            if src is not None and src[0] == "call" and src[1] == STR + "split" and cchar(src[2][1]) is not None:
+                return ("Item", cchar(src[2][1]), _region(src[2][0]))
         if base[0] in ("some", "ok"):
             x = base[1]
             if x[0] == "call" and x[1] == "std::option::Option::<T>::ok_or":
